@@ -19,7 +19,7 @@ func init() {
 		Property: "C04",
 		Explanation: "PATH/SEE/STRUCT rules: R-C04-1 on every success path of Interface.RouterAdvertisement the returned RouterLifetime is the configured lifetime only when forwarding is true (or the lifetime is already <= 0), otherwise the constant 0 together with the InterfaceNotForwarding misconfiguration, all other header fields unchanged; " +
 			"R-C04-2 every caller passes the result of State.IPv6Forwarding(<same interface>.Name) read in the same activation, after checking its error; R-C04-3 no field or global ever stores a value derived from IPv6Forwarding (nothing caches it); " +
-			"R-C04-4 every switch over config.Misconfiguration covers all declared constants, buildRA logs the condition, constScrape hands the misconfigurations and forwarding value of the same reads to collectMetrics, which exports them Every path through the InterfaceNotForwarding arm of buildRA writes the log line (no latch).",
+			"R-C04-4 every switch over config.Misconfiguration covers all declared constants, buildRA logs the condition, constScrape hands the misconfigurations and forwarding value of the same reads to collectMetrics, which exports them Every path through the InterfaceNotForwarding arm of buildRA writes the log line (no latch). R-C04-3 also (linux build): every success path of the forwarding sysctl reader returns a value computed from an os.ReadFile call made on that path (nothing is remembered between calls).",
 		Assumptions: []string{
 			"Go type checker and go/ssa construction are correct",
 			"config guarantees DefaultLifetime >= 0 (decided by C02)",
